@@ -1,15 +1,20 @@
 #!/bin/sh
-# usage: tools/try_mutation.sh <patch.diff> <ID> [tier] -- apply a seeded change to /repo, run the check, undo it straight away
+# usage: tools/try_mutation.sh <patch.diff> <ID> [tier]
+# Runs a check against a seeded change WITHOUT touching /repo: the change is applied to a scratch worktree of /repo's
+# HEAD and the check is pointed at it through VERIF_REPO (several of these can run side by side).
 patch="$1"; id="$2"; tier="${3:-quick}"
-cd /repo || exit 2
-if [ -n "$(git status --porcelain --untracked-files=no)" ]; then echo "repo not clean"; exit 2; fi
-git apply "$patch" || { echo "patch does not apply"; exit 2; }
+wt=/tmp/mutrun/wt_$$
+mkdir -p /tmp/mutrun
+git -C /repo worktree add -q --detach "$wt" HEAD || exit 2
+cp /repo/src/execnet/_version.py "$wt/src/execnet/"
+( cd "$wt" && git apply "$patch" ) || { echo "patch does not apply"; git -C /repo worktree remove --force "$wt"; exit 2; }
 cd /verif
 start=$(date +%s)
-timeout 1500 ./check "$id" --tier "$tier" > /tmp/try_mut_out.txt 2>&1
+VERIF_REPO="$wt" VERIF_EVIDENCE_DIR=/tmp/mutrun/ev_$$ timeout 1500 ./check "$id" --tier "$tier" > /tmp/mutrun/out_$$.txt 2>&1
 rc=$?
 end=$(date +%s)
-git -C /repo checkout -- .
+git -C /repo worktree remove --force "$wt"
 echo "== $patch on $id: exit=$rc in $((end-start))s"
-grep -E "^# .* mechanism=" /tmp/try_mut_out.txt | cut -c1-260 | head -6
-grep -E "^(VIOLATION|INCONCLUSIVE)" /tmp/try_mut_out.txt | cut -c1-200 | head -3
+grep -E "^# .* mechanism=" /tmp/mutrun/out_$$.txt | cut -c1-260 | head -6
+grep -E "^(VIOLATION|INCONCLUSIVE)" /tmp/mutrun/out_$$.txt | cut -c1-200 | head -3
+rm -rf /tmp/mutrun/ev_$$ /tmp/mutrun/out_$$.txt
